@@ -26,12 +26,12 @@ TECH = {
  "C18": "panic-site inventory over parser-reachable MIR (explicit panics, unwraps, bounds/overflow asserts) with guard-based discharge",
  "C19": "writer/reader agreement between the token-grouping passes and the token-tree-to-goal pass (token kinds produced vs. handled, union over MIR paths); registry agreement Display(Infix) vs. the infix scanners — one structural clause of the property, the round trip itself is not decided",
  "C20": "sibling cross-check of the scanners that classify a term's text for the term constructor, by finite-domain evaluation over the character alphabet: per scanner, flag and character class the effect (always / never / depends) of a first and of a later character is read off the MIR paths of one trip round the scanning loop (comparisons, `match` on the character, `char::is_ascii_digit`-style predicates; flags as locals or as fields of a struct; forwarding wrappers skipped) and compared between scanners; who-may-call rule on `str::parse::<i64|f64>` — one structural clause of the property, equality of the parsers on every text is not decided",
+ "C21": "error-discipline rule over the MIR paths of the file loader and the functions of its source file it reaches (every `Err` of a fallible step and every message of a line / bracket check leads to an error return without another loop trip); wiring of loader (reader -> rule parser -> insertion, in order, via iterator element provenance) and of reader (kept lines appended once, in order) — structural clauses only, the line joining / comment stripping / period splitting themselves are not decided",
  "C22": "inventory of process-wide mutable state read by the solver; must-write rule for query constructors",
  "C23": "typestate pairing start_query_timer/cancel_timer and flag-read ordering on MIR paths",
  "C24": "closed-world audit of unsafe operations in MIR: static-access thread reachability, raw-pointer provenance, liveness of node references across cutting calls",
 }
 NA = {
- "C21": "file loading vs rule-by-rule parsing depends on line joining, comment stripping and period splitting over all texts; only a thin error-discipline clause is structural, too small to claim the property through",
 }
 props = [json.loads(l)["id"] for l in open(os.path.join(VERIF, "properties.jsonl"))]
 checks, na = [], []
